@@ -172,6 +172,23 @@ theorem roundtrip (cls : Cls) (k : Src) (chunk : Nat) (l : Bits) (h8 : 8 ∣ chu
       (construct cls k w (some (l.length : Int)) none).map Store.bin) = .ok l := by
   exact roundtrip_eq cls k chunk l (by omega) hpos
 
+/-- End to end: an object read from any source through a valid window serialises — `tobytes()`, the `bytes`
+    property when it applies, `tofile` with any whole-byte chunk — to `toBytes` of exactly that window. -/
+theorem window_then_serialise (cls : Cls) (k : Src) (data : Bytes) (off len : Option Int) (chunk : Nat)
+    (h : validWindow (8 * data.length) off len = true) (h8 : 8 ∣ chunk) (hpos : 0 < chunk) :
+    ∃ s, construct cls k data len off = .ok s ∧ s.bin = readSpec data off len ∧
+      s.tobytes = toBytes (readSpec data off len) ∧
+      tofile false chunk s = .ok (toBytes (readSpec data off len)) ∧
+      ((readSpec data off len).length % 8 = 0 → bytesProp s = .ok (toBytes (readSpec data off len))) := by
+  obtain ⟨s, hs, hwf, hb⟩ := construct_valid cls k data off len h
+  refine ⟨s, hs, hb, ?_, ?_, ?_⟩
+  · rw [tobytes_eq, hb]
+  · rw [tofile_eq chunk s hwf (by omega) hpos, hb]
+  · intro h0
+    rw [bytesProp_iff s hwf]
+    rw [hb]
+    exact ⟨h0, rfl⟩
+
 /-! ### Array: tobytes / tofile serialise the data (items and trailing bits); fromfile appends whole items -/
 
 theorem arrayTobytes_eq (data : Bits) : arrayTobytes data = toBytes data := by
